@@ -11,6 +11,7 @@
 -/
 import J1939.Model.Dm14
 import J1939.Lemmas.Tactics
+import J1939.Props.C17
 namespace J1939.Props.C19
 open J1939 J1939.Gen J1939.Dm14
 
@@ -213,5 +214,30 @@ example : InTx 0x21 (deliver ⟨id, id⟩ { seedSecurity := true, s := { hasKey 
   ⟨by decide, by decide, by decide, by decide, by decide, by decide⟩
 example : Intrudes 0x21 (deliver ⟨id, id⟩ { hasProceed := true } 0 true ⟨PGN_DM14, 0x21, [1, 0x13, 3, 0, 0, 0x92, 7, 0]⟩).n
     ⟨PGN_DM14, 0x22, [1, 0x13, 3, 0, 0, 0x92, 7, 0]⟩ := ⟨rfl, by decide, Or.inl (by decide)⟩
+
+/-- EVERY SERVER-SIDE STATE OF A TRANSACTION IS `InTx`: the states the whole-transaction theorems of C17 go through —
+    after the opening DM14 (application consulted), while a multi-packet DM16 is on its way, while the written data
+    is awaited, and while the closing DM14 is awaited — all satisfy the hypothesis of `c19_intruder_noop`; so an
+    intruding DM14 at ANY point between the opening and the closing DM14 of those transactions is a no-op -/
+theorem c19_intx_after_open (s0 : Node) (hcl : C17.Clean s0) (cl count direct cmd address level : Nat) :
+    InTx cl { s0 with subs := [], f := .waitResponse,
+                      s := { s0.s with sa := some cl, state := .sendProceed, status := ST_PROCEED, length := 8,
+                                       address := some (Py.toBytesLE 4 address), direct := direct, command := cmd,
+                                       pointerType := direct % 2, objectCount := count, accessLevel := level,
+                                       data := C17.openDm14 count direct cmd address level } } :=
+  ⟨rfl, hcl.busy, by simp, by simp, by simp, rfl⟩
+
+theorem c19_intx_closing (s : Node) (cl : Nat) (h : C17.Closing s cl) : InTx cl s := by
+  obtain ⟨h1, h2, h3, h4, h5, h6, h7⟩ := h
+  refine ⟨h4, h6, by rw [h3]; simp, by rw [h1]; simp, ?_, h7⟩
+  rcases h2 with h2 | h2 <;> rw [h2] <;> simp
+
+theorem c19_intx_read_long (s : Node) (cl : Nat) (hf : s.f = .idle) (hsubs : s.subs = [.srv16, .listen]) (hst : s.s.state = .sendProceed)
+    (hsa : s.s.sa = some cl) (hb : s.s.busy = false) (hl : s.s.length = 8) : InTx cl s :=
+  ⟨hsa, hb, by rw [hst]; simp, by rw [hf]; simp, by rw [hsubs]; simp, hl⟩
+
+theorem c19_intx_write_wait (s : Node) (cl : Nat) (hf : s.f = .idle) (hsubs : s.subs = [.srv16]) (hst : s.s.state = .waitDm16)
+    (hsa : s.s.sa = some cl) (hb : s.s.busy = false) (hl : s.s.length = 8) : InTx cl s :=
+  ⟨hsa, hb, by rw [hst]; simp, by rw [hf]; simp, by rw [hsubs]; simp, hl⟩
 
 end J1939.Props.C19
